@@ -425,8 +425,92 @@ def run_family(name, tier, seed, work):
     return dict(name=name, tlc=res, walk=rep, meta=meta, scale=fam['scale'], walker=fam['walker'])
 
 
+def deep_diff(a, b, path=''):
+    """paths at which two JSON values differ ([] and {} are the same empty value)."""
+    def empty(x):
+        return x in ([], {}, None)
+    if isinstance(a, dict) and isinstance(b, dict):
+        out = []
+        for k in sorted(set(a) | set(b)):
+            p = k if not path else path + '.' + k
+            if k not in a or k not in b:
+                out.append(p)
+            else:
+                out += deep_diff(a[k], b[k], p)
+        return out
+    if empty(a) and empty(b):
+        return []
+    if isinstance(a, dict) and empty(b) or isinstance(b, dict) and empty(a):
+        d = a if isinstance(a, dict) else b
+        return [(path + '.' + k) if path else k for k in sorted(d)]
+    return [] if a == b else [path or '<root>']
+
+
+def run_trace(name, tier, seed, work):
+    """E3: seeded random histories on the real keepers (NDJSON with event, result, response, full projected state per
+    line) validated by TLC: each line is a one-step refinement check from the observed pre-state; invariants are
+    evaluated on observed states; divergences are converted into the same mismatch records E2 produces."""
+    tr = F.TRACES[name]
+    trace = os.path.join(work, name + '.trace.ndjson')
+    t0 = time.time()
+    rr = subprocess.run([VH, tr['driver'], '--seed', str(seed), '--paths', str(tr['runs'][tier]), '--len', str(tr['length'][tier]), '--out', trace],
+                        stdout=subprocess.PIPE, stderr=subprocess.STDOUT, text=True, timeout=tr['timeout'][tier])
+    if rr.returncode != 0:
+        raise Undecided('driver %s failed: %s' % (tr['driver'], rr.stdout[-2000:]))
+    stats = json.loads(rr.stdout.strip().splitlines()[-1])
+    out = os.path.join(work, name + '.trace.tlc.out')
+    res = run_tlc(tr['module'], 'SPECIFICATION Spec\nCONSTANT TraceFile = "%s"\n' % trace, work, out, tr['timeout'][tier], workers=1)
+    lines = [json.loads(l) for l in open(trace)]
+    n = None
+    mism = []
+    for l in open(out, errors='replace'):
+        if l.startswith('"TRACE '):
+            n = json.loads(json.loads(l)[6:])['lines']
+        elif l.startswith('"DIV '):
+            d = json.loads(json.loads(l)[4:])
+            rec = lines[d['line'] - 1]
+            m = dict(kind=d['kind'], event=rec['e'], impl_ok=rec['ok'], spec_ok=d.get('spec_ok', rec['ok']), impl_err=rec.get('err'), failed_guards=d.get('failed') or [],
+                     path=[], trace_line=d['line'], run=rec.get('run'))
+            if d['kind'] == 'state':
+                m['fields'] = []
+                for f in d['fields']:
+                    m['fields'] += deep_diff((d.get('spec') or {}).get(f), rec['state'].get(f), f)
+                m['detail'] = dict(spec={f: (d.get('spec') or {}).get(f) for f in d['fields'][:4]})
+            elif d['kind'] == 'resp':
+                m['fields'] = deep_diff(d.get('spec'), rec.get('resp'))
+                m['detail'] = dict(spec=d.get('spec'), impl=rec.get('resp'))
+            mism.append(m)
+        elif l.startswith('"INV '):
+            d = json.loads(json.loads(l)[4:])
+            rec = lines[d['line'] - 1]
+            for inv in d['failed']:
+                mism.append(dict(kind='invariant', name=inv, tags=tr['inv_tags'].get(inv, []), event=rec.get('e') or {}, impl_ok=rec.get('ok'), spec_ok=True, path=[], trace_line=d['line'], run=rec.get('run')))
+    if res['rc'] != 0 or res['errors'] or n != len(lines) or n == 0:
+        raise Undecided('trace validation of %s did not complete (lines %s of %s, rc=%s, %s)' % (name, n, len(lines), res['rc'], res['errors'][:2] or res['tail'][-6:]))
+    # replay material: the events of the run up to the offending line
+    for m in mism:
+        run = m.get('run')
+        m['path'] = [x['e'] for x in lines[:m['trace_line'] - 1] if x.get('run') == run and 'e' in x]
+        m['reset'] = next((dict(scale=x['scale'], seed=x['seed']) for x in lines if x.get('run') == run and x.get('reset')), None)
+    by_type = {k: v for k, v in stats.items() if not k.startswith('ok:')}
+    ok_events = sum(v for k, v in stats.items() if k.startswith('ok:'))
+    log('[trace.%s] E3: %d runs x %d events recorded from the real keepers, %d lines validated by TLC (%d succeeding events), %d divergences / invariant failures, %.0fs' % (
+        name, tr['runs'][tier], tr['length'][tier], n, ok_events, len(mism), time.time() - t0))
+    sample = dict(lines[1]) if len(lines) > 1 else {}
+    sample.pop('state', None)
+    walk = dict(states=n, edges=n, edges_ok=ok_events, replayed=n, unreached_states=0, skipped_subtrees=0, by_type=by_type, mismatches=mism[:400], n_mismatch=len(mism),
+                samples=[sample], findings={}, finding_samples={})
+    tlc = dict(res)
+    tlc['distinct'] = 0
+    tlc['states'] = 0
+    return dict(name='trace.' + name, tlc=tlc, walk=walk, meta=dict(trace=True), scale='per-run', walker=tr['driver'], is_trace=True, mod=tr['mod'])
+
+
 def write_replay(pid, fam_result, m, seed):
     os.makedirs(REPLAYS, exist_ok=True)
+    if fam_result.get('is_trace') and m.get('reset'):
+        seed = m['reset']['seed']
+        fam_result = dict(fam_result, scale=m['reset']['scale'], walker='l1-walk' if fam_result.get('mod') == 'l1' else fam_result['walker'], meta=dict(driver=True))
     body = dict(property=pid, family=fam_result['name'], walker=fam_result['walker'], seed=seed, scale=fam_result['scale'],
                 meta=fam_result['meta'], path=m.get('path') or [], event=m.get('event'), expect=dict(
                     spec_ok=m.get('spec_ok'), failed_guards=m.get('failed_guards'), fields=m.get('fields'), detail=m.get('detail')),
@@ -448,6 +532,7 @@ def run_property(pid, tier, seed):
         dt = build_harness()
         log('harness rebuilt from %s in %.1fs' % (REPO, dt))
         results = [run_family(n, tier, seed, work) for n in F.PROPERTIES[pid]['families']]
+        results += [run_trace(n, tier, seed, work) for n in F.PROPERTIES[pid].get('traces', [])]
     except Undecided as e:
         log('UNDECIDED property=%s: %s' % (pid, e))
         shutil.rmtree(work, ignore_errors=True)
@@ -460,7 +545,7 @@ def run_property(pid, tier, seed):
     violations, drift, known_hit = [], [], {}
     for fr in results:
         for m in fr['walk']['mismatches']:
-            tags, why = attribute(m, fr['name'].split('.')[0])
+            tags, why = attribute(m, fr.get('mod') or fr['name'].split('.')[0])
             if m['kind'] == 'init':
                 log('UNDECIDED property=%s: %s' % (pid, why))
                 shutil.rmtree(work, ignore_errors=True)
@@ -473,7 +558,7 @@ def run_property(pid, tier, seed):
                     violations.append((fr, m, why))
             else:
                 drift.append(dict(tags=sorted(tags), why=why))
-        mod = fr['name'].split('.')[0]
+        mod = fr.get('mod') or fr['name'].split('.')[0]
         for sig, n in sorted((fr['walk'].get('findings') or {}).items()):
             if pid not in TAGS[mod].get('finding', {}).get(sig, []):
                 continue
@@ -523,7 +608,9 @@ def run_property(pid, tier, seed):
                            action_properties=F.FAMILIES[fr['name']]['properties'],
                            edges_replayed_on_real_code=fr['walk']['replayed'], succeeding_edges=fr['walk']['edges_ok'],
                            mismatches=fr['walk']['n_mismatch'], concretisation=dict(seed=seed, scale=fr['scale']))
-                      for fr in results],
+                      for fr in results if not fr.get('is_trace')],
+            recorded_traces=[dict(name=fr['name'], lines_validated_by_tlc=fr['walk']['replayed'], succeeding_events=fr['walk']['edges_ok'],
+                                  divergences=fr['walk']['n_mismatch'], tlc_wall_s=round(fr['tlc']['wall'], 1)) for fr in results if fr.get('is_trace')],
             replayed_edges_by_event_type=by_type,
             rule='every transition TLC generates for the bounded model (all succeeding ones; failing ones with at most FailCap false guards) '
                  'is executed once on the real keepers from a real state projecting to its source state; result, response and full projected post-state are compared',
